@@ -2,11 +2,17 @@
 
 package main
 
-// C19 harness 4: keepstore remoteProxy.remoteClient — the token handed to the remote cluster.
+// C19 harness 4: keepstore remoteProxy.remoteClient — the token handed to the remote cluster (CRemote) — and
+// remoteProxy.Get for a locator with a remote hint, the remote cluster's keep client sending through a
+// recording HTTP client (CKsGet): everything that is sent to the remote cluster's keep services.
 
 import (
+	"context"
 	"fmt"
+	"net/http"
+	"net/http/httptest"
 	"os"
+	"strings"
 	"testing"
 
 	"git.arvados.org/arvados.git/sdk/go/arvados"
@@ -28,6 +34,10 @@ func TestVerifC19KS(t *testing.T) {
 			continue
 		}
 		r := vCaseRand(seed, i)
+		if i%3 == 2 {
+			c19KsGetCase(t, cs, i, r)
+			continue
+		}
 		remote := c19Remote(r)
 		tok, kind := c19Token(r, remote)
 		base := &keepclient.KeepClient{Arvados: &arvadosclient.ArvadosClient{ApiToken: "xxx"}}
@@ -45,4 +55,52 @@ func TestVerifC19KS(t *testing.T) {
 		cs.Add(i, term, desc, true, "shape="+kind, fmt.Sprintf("remote-client-error=%v", err != nil))
 	}
 	cs.Write()
+}
+
+type c19KsClient struct{ rec *c19Recorder }
+
+func (c c19KsClient) Do(req *http.Request) (*http.Response, error) { return c.rec.RoundTrip(req) }
+
+func c19KsGetCase(t *testing.T, cs *vCases, i int, r *vRand) {
+	remote := []string{"bbbbb", "zzzzz"}[r.Intn(2)]
+	tok, kind := c19Token(r, remote)
+	if r.Chance(1, 3) {
+		tok, _ = c19V2(r, remote)
+		kind = "v2-long-secret"
+	} else if r.Chance(1, 4) {
+		tok, kind = c19Str(r, c19Alnum, 41+r.Intn(20)), "legacy"
+	}
+	if strings.ContainsAny(tok, "\r\n") || strings.TrimLeft(tok, " \t\f\v") != tok || tok == "" {
+		// the Authorization header is read with ^(OAuth2|Bearer)\s+(.*): keep to tokens it returns whole
+		tok, kind = c19Str(r, c19Alnum, 41+r.Intn(20)), "legacy"
+	}
+	rec := &c19Recorder{respond: func(req *http.Request, body string) (int, string) { return 404, "not found" }}
+	base := &keepclient.KeepClient{Arvados: &arvadosclient.ArvadosClient{ApiToken: "xxx"}, HTTPClient: c19KsClient{rec}}
+	roots := map[string]string{remote + "-bi6l4-000000000000000": "http://keep0.r" + remote + ".remote.example", remote + "-bi6l4-000000000000001": "http://keep1.r" + remote + ".remote.example"}
+	base.SetServiceRoots(roots, roots, nil)
+	rp := &remoteProxy{clients: map[string]*keepclient.KeepClient{remote: base}}
+	cluster := &arvados.Cluster{ClusterID: "aaaaa", RemoteClusters: map[string]arvados.RemoteCluster{remote: {Host: "r" + remote + ".remote.example"}}}
+	locator := c19Str(r, "0123456789abcdef", 32) + "+" + fmt.Sprint(1+r.Intn(1000)) + "+R" + remote + "-" + c19Str(r, "0123456789abcdef", 40) + "@" + c19Str(r, "0123456789abcdef", 8)
+	if r.Chance(1, 4) {
+		locator += "+A" + c19Str(r, "0123456789abcdef", 40) + "@" + c19Str(r, "0123456789abcdef", 8)
+	}
+	req := httptest.NewRequest("GET", "http://keep.local.example/"+locator, nil)
+	req.Header["Authorization"] = []string{[]string{"Bearer ", "OAuth2 "}[r.Intn(2)] + tok}
+	rw := httptest.NewRecorder()
+	rp.Get(context.Background(), rw, req, cluster, nil)
+	sent := rec.take()
+	var sentTerms []string
+	for _, s := range sent {
+		if s.Header.Get("X-Request-Id") != "" {
+			s.Header.Set("X-Request-Id", "req-generated") // random
+		}
+		parts := c19Parts(s)
+		sentTerms = append(sentTerms, fmt.Sprintf("(%s, %s, %s)", gStr(remote), gStr(strings.Join(s.Header["Authorization"], "\n")), c19PartsTerm(parts)))
+	}
+	if base.Arvados.ApiToken != "xxx" {
+		t.Fatalf("shared client's token was modified")
+	}
+	term := fmt.Sprintf("CKsGet %s %s %s", gStr(tok), gStr(remote), gList(sentTerms))
+	desc := map[string]interface{}{"index": i, "kind": "keepstore-remote-get", "token": tok, "remote": remote, "locator": locator, "response_code": rw.Code, "sent": sent}
+	cs.Add(i, term, desc, true, "get-shape="+kind, fmt.Sprintf("get-sent=%d", len(sent)), fmt.Sprintf("get-response=%d", rw.Code))
 }
